@@ -176,8 +176,100 @@ let m_rt (f : Stdlib.String.t list) : Stdlib.String.t =
    | r -> Buffer.add_string out (outcome_head r ^ "\n"));
   Buffer.contents out
 
+(* abstract replay from case fields: <start> <gecko> <end> <meta> <frames> *)
+let z_of_int (i : int) : z = if i = 0 then Z0 else if i > 0 then Zpos (pos_of_int i) else Zneg (pos_of_int (- i))
+
+let split_on (c : char) (s : Stdlib.String.t) : Stdlib.String.t list =
+  if s = "-" || s = "" then [] else Stdlib.String.split_on_char c s
+
+let replay_of_fields (f : Stdlib.String.t list) : replay =
+  let nth k = Stdlib.List.nth f k in
+  let start = bytes_of_hex (nth 0) in
+  let gecko = (match nth 1 with
+      | "-" -> None
+      | g -> (match Stdlib.String.split_on_char ':' g with
+          | [a; h] -> Some (api_mk_gecko (bytes_of_hex h) (n_of_int (int_of_string a)))
+          | _ -> failwith "bad gecko")) in
+  let en = (match nth 2 with
+      | "-" -> NoEnd
+      | e -> (match Stdlib.String.split_on_char ':' e with
+          | ["s"; h] -> OneEnd (bytes_of_hex h)
+          | ["d"; h] -> TwoEnds (bytes_of_hex h)
+          | _ -> failwith "bad end")) in
+  let meta = (match nth 3 with
+      | "-" -> None
+      | h -> (match api_read_map (bytes_of_hex h) with
+          | Ok (t, _) -> Some t
+          | _ -> failwith "bad metadata")) in
+  let frames = Stdlib.List.map (fun fs ->
+      match Stdlib.String.split_on_char '/' fs with
+      | [id; st; en; chars; items] ->
+        let cs = Stdlib.List.map (fun c ->
+            match Stdlib.String.split_on_char '.' c with
+            | [p; fl; pre; post] -> api_mk_char (n_of_int (int_of_string p)) (fl = "1") (bytes_of_hex pre) (bytes_of_hex post)
+            | _ -> failwith "bad char") (split_on ',' chars) in
+        let its = Stdlib.List.map bytes_of_hex (split_on ',' items) in
+        api_mk_frame (z_of_int (int_of_string id)) (bytes_of_hex st) cs its (bytes_of_hex en)
+      | _ -> failwith "bad frame") (split_on ';' (nth 4)) in
+  api_mk_replay start gecko frames en meta
+
+(* emit: <start> <gecko> <end> <meta> <frames> <opts>: bytes the recorder model writes, wf, and the game it denotes *)
+let m_emit (f : Stdlib.String.t list) : Stdlib.String.t =
+  let r = replay_of_fields f in
+  let o = Stdlib.List.nth f 5 in
+  let skip = Stdlib.String.contains o 's' and hash = Stdlib.String.contains o 'h' in
+  let out = Buffer.create 4096 in
+  let b = api_emit r in
+  Buffer.add_string out (Printf.sprintf "emit=%s\n" (hex_of_bytes b));
+  Buffer.add_string out (Printf.sprintf "wf=%d\n" (if api_wf r then 1 else 0));
+  (match api_game_of skip hash r with
+   | Some g ->
+     let n = Stdlib.List.length b in
+     Buffer.add_string out "OK\n";
+     Buffer.add_string out (Printf.sprintf "consumed=%d/%d\n" n n);
+     dump_game out g
+   | None -> Buffer.add_string out "NOGAME\n");
+  Buffer.contents out
+
+(* rollbacks: <ids> *)
+let m_rollbacks (f : Stdlib.String.t list) : Stdlib.String.t =
+  let ids = Stdlib.List.map (fun x -> z_of_int (int_of_string x)) (split_on ',' (Stdlib.List.nth f 0)) in
+  let s v = join "" (Stdlib.List.map (fun x -> if x then "1" else "0") v) in
+  let one name first =
+    match api_rollbacks first ids with
+    | Ok v -> Printf.sprintf "%s=[%s]\n" name (s v)
+    | _ -> Printf.sprintf "%s=PANIC\n" name in
+  one "first" true ^ one "last" false
+
+(* norm: <lo> <hi>: the non-identity pairs and idempotence failures over the scalar values in [lo,hi] *)
+let m_norm (f : Stdlib.String.t list) : Stdlib.String.t =
+  let lo = int_of_string (Stdlib.List.nth f 0) and hi = int_of_string (Stdlib.List.nth f 1) in
+  let out = Buffer.create 1024 in
+  let n = ref 0 in
+  for c = lo to hi do
+    if api_is_scalar (n_of_int c) then begin
+      incr n;
+      let r = int_of_n (api_fix_char (n_of_int c)) in
+      if r <> c then Buffer.add_string out (Printf.sprintf "map %d -> %d\n" c r);
+      if int_of_n (api_fix_char (n_of_int r)) <> r then Buffer.add_string out (Printf.sprintf "nonidem %d\n" c)
+    end
+  done;
+  Buffer.add_string out (Printf.sprintf "scalars=%d\n" !n);
+  Buffer.contents out
+
+(* sjis: <hex bytes> *)
+let m_sjis (f : Stdlib.String.t list) : Stdlib.String.t =
+  match api_melee_string (bytes_of_hex (Stdlib.List.nth f 0)) with
+  | SjOk s -> Printf.sprintf "OK %s\nrepl=0\n" (if s = [] then "-" else hex_of_bytes s)
+  | SjErr -> "ERR\n"
+  | SjUnknown -> "UNMODELLED\n"
+
 let dispatch (mode : Stdlib.String.t) (f : Stdlib.String.t list) : Stdlib.String.t =
   match mode with
   | "read" -> m_read f
   | "rt" -> m_rt f
+  | "emit" -> m_emit f
+  | "rollbacks" -> m_rollbacks f
+  | "norm" -> m_norm f
+  | "sjis" -> m_sjis f
   | _ -> failwith ("unknown mode " ^ mode)
